@@ -33,6 +33,29 @@ def callback_facts():
     return caught, after_store, before_notify
 
 
+def activate_facts():
+    """from the AST of Dispatcher.handle_activate: (a) every `send_reply` of the snapshot stands inside a
+    `with <module>.updateLock:` block, (b) the connection is registered as a listener (`subscribe(...)` /
+    `_active_connections.add(...)`) before the first of these blocks is entered"""
+    import ast
+    import inspect
+    import textwrap
+    from frappy.protocol.dispatcher import Dispatcher
+    tree = ast.parse(textwrap.dedent(inspect.getsource(Dispatcher.handle_activate)))
+    locked_blocks = [n for n in ast.walk(tree) if isinstance(n, ast.With)
+                     and any('updateLock' in ast.unparse(i.context_expr) for i in n.items)]
+    inside = set()
+    for blk in locked_blocks:
+        for n in ast.walk(blk):
+            inside.add(id(n))
+    sends = [n for n in ast.walk(tree) if isinstance(n, ast.Call) and ast.unparse(n.func).endswith('send_reply')]
+    registers = [n.lineno for n in ast.walk(tree) if isinstance(n, ast.Call)
+                 and (ast.unparse(n.func).endswith('.subscribe') or ast.unparse(n.func).endswith('_active_connections.add'))]
+    under_lock = bool(sends) and all(id(n) in inside for n in sends)
+    register_first = bool(registers) and bool(locked_blocks) and max(registers) < min(b.lineno for b in locked_blocks)
+    return under_lock, register_first
+
+
 def generate():
     from frappy.params import Parameter
     from frappy.lib import generalConfig
@@ -43,11 +66,14 @@ def generate():
     default = Parameter.propertyDict['update_unchanged'].default
     gen = generalConfig.defaults.get('omit_unchanged_within', 0)
     caught, after_store, before_notify = callback_facts()
+    snap_under_lock, register_first = activate_facts()
     from translate import llist, lbool
     return [
         'def callbackCaught : List String := ' + llist(lstr(c) for c in caught),
         f'def callbacksAfterStores : Bool := {lbool(after_store)}',
         f'def callbacksBeforeNotify : Bool := {lbool(before_notify)}',
+        f'def snapshotSentUnderUpdateLock : Bool := {lbool(snap_under_lock)}',
+        f'def registeredBeforeSnapshot : Bool := {lbool(register_first)}',
         f'def updateUnchangedAlways : Int := {lint(members["always"])}',
         f'def updateUnchangedNever : Int := {lint(members["never"])}',
         f'def updateUnchangedDefault : Int := {lint(members["default"])}',
